@@ -19,7 +19,20 @@ for pid in [f"C{i:02d}" for i in range(1, 21)]:
                 vals[node.targets[0].id] = ast.literal_eval(node.value)
             except Exception:
                 pass
-    th = vals.get("THEOREMS", [])
+    th = vals.get("THEOREMS")
+    if th is None:
+        # THEOREMS built from another module's list (e.g. c20.py: `[...] + list(c20pbt.THEOREMS)`): every string constant of the
+        # assignment plus the lists it refers to
+        th = []
+        for node in tree.body:
+            if isinstance(node, ast.Assign) and getattr(node.targets[0], "id", None) == "THEOREMS":
+                th += [c.value for c in ast.walk(node.value) if isinstance(c, ast.Constant) and isinstance(c.value, str)]
+                for a in ast.walk(node.value):
+                    if isinstance(a, ast.Attribute) and a.attr == "THEOREMS" and isinstance(a.value, ast.Name):
+                        q = os.path.join(ROOT, "harness", "props", a.value.id + ".py")
+                        for n2 in ast.parse(open(q).read()).body:
+                            if isinstance(n2, ast.Assign) and getattr(n2.targets[0], "id", None) == "THEOREMS":
+                                th += ast.literal_eval(n2.value)
     part = [t.split(".")[-1] for t in th if t.endswith("_partial")]
     cex = [t.split(".")[-1] for t in th if "counterexample" in t]
     ev = os.path.join(ROOT, "evidence", pid + ".json")
